@@ -3,6 +3,7 @@ package props
 import (
 	"fmt"
 	"go/token"
+	"strings"
 
 	"golang.org/x/tools/go/ssa"
 
@@ -86,4 +87,62 @@ func c06PrefixCursor(c *core.Check) {
 	if n == 0 {
 		r.Anchor("HasPrefix tests refining a byte test in css/parser")
 	}
+}
+
+// c06BlockContentFirstToken (R16): an item of a block's contents that starts with `;` is empty and one that starts
+// with a {} block is a rule with an empty prelude: in both cases the first token already ends (or is) the item, and
+// consumeBlocksContent must not read further tokens for it.  The loop that collects the following tokens is reached
+// only when the first token is neither (`{} a:b; c:d` otherwise loses `a:b`).
+func c06BlockContentFirstToken(c *core.Check) {
+	p := c.Prog
+	r := c.Rule("R16", "an item that starts with ; or with a {} block reads no further token: in css/parser.consumeBlocksContent the first call of HasNext is reached only when IsLiteral(firstToken, \";\") is false and the assertion of firstToken to CurlyBracketsBlock failed", 1)
+	fn := p.Fn("css/parser", "consumeBlocksContent")
+	if fn == nil {
+		r.Anchor("css/parser.consumeBlocksContent")
+		return
+	}
+	key := "css/parser.consumeBlocksContent | first token ends the item"
+	var site *ssa.BasicBlock
+	core.Instrs(fn, func(in ssa.Instruction) {
+		if site == nil && core.CalleeName(in) != "" && (core.CalleeName(in) == "HasNext" || hasSuffixName(core.CalleeName(in), "HasNext")) {
+			site = in.Block()
+		}
+	})
+	if site == nil || len(fn.Params) == 0 {
+		r.Unknown(key, p.Pos(fn.Pos()), "no call of HasNext")
+		return
+	}
+	first := fn.Params[0]
+	var semi, curly []ssa.Value
+	for _, a := range core.CondAtoms(fn) {
+		switch x := a.(type) {
+		case *ssa.Call:
+			if x.Call.StaticCallee() != nil && x.Call.StaticCallee().Name() == "IsLiteral" && len(x.Call.Args) == 2 && x.Call.Args[0] == ssa.Value(first) {
+				if k, ok := core.ConstStr(x.Call.Args[1]); ok && k == ";" {
+					semi = append(semi, a)
+				}
+			}
+		case *ssa.Extract:
+			if ta, ok := x.Tuple.(*ssa.TypeAssert); ok && x.Index == 1 && ta.X == ssa.Value(first) && strings.HasSuffix(ta.AssertedType.String(), "CurlyBracketsBlock") {
+				curly = append(curly, a)
+			}
+		}
+	}
+	if len(semi) == 0 || len(curly) == 0 {
+		r.Fail(key, p.Pos(fn.Pos()), fmt.Sprintf("tests of the first token not found (%d for the semicolon, %d for the {} block)", len(semi), len(curly)))
+		return
+	}
+	ok, _ := core.GuardedBy(fn, site, append(append([]ssa.Value{}, semi...), curly...), func(m map[ssa.Value]bool) bool {
+		for _, v := range m {
+			if v {
+				return false
+			}
+		}
+		return true
+	})
+	r.Cond(ok, key, p.Pos(fn.Pos()), "further tokens are read only when the first one is neither ; nor a {} block", "further tokens are read although the first token is a ; or a {} block: the item swallows the following declaration or rule")
+}
+
+func hasSuffixName(s, suf string) bool {
+	return len(s) >= len(suf) && s[len(s)-len(suf):] == suf
 }
